@@ -46,10 +46,8 @@ def cmp(x,y):
     if x is y:
         return 0
     x,y = as_primitive([x,y])
-    x = float(x) if isinstance(x, int) and not isinstance(x, bool) else x
-    y = float(y) if isinstance(y, int) and not isinstance(y, bool) else y
-    tx = str(type(x))
-    ty = str(type(y))
+    tx = str(float) if isinstance(x, int) and not isinstance(x, bool) else str(type(x)) # ints rank with floats but keep their exact value
+    ty = str(float) if isinstance(y, int) and not isinstance(y, bool) else str(type(y))
     if tx<ty:
         return -1
     elif ty<tx:
